@@ -1129,6 +1129,161 @@ Proof.
 Qed.
 
 (* ------------------------------------------------------------------ *)
+(* GetUpdate                                                           *)
+
+Lemma limit_rest_prefix t m A : exists n, limit_rest t m A = firstn n A.
+Proof.
+  revert t. induction A as [|e A IH]; intros t; [exists 0%nat; reflexivity|]. cbn [limit_rest].
+  destruct (m <? t + esize e); [exists 0%nat; reflexivity|].
+  destruct (IH (t + esize e)) as [n Hn]. exists (S n). cbn [firstn]. rewrite Hn. reflexivity.
+Qed.
+Lemma limit_size_prefix A m : A <> [] -> exists n, limit_size A m = firstn (S n) A.
+Proof.
+  destruct A as [|e A]; [congruence|]. intros _. cbn [limit_size].
+  destruct (limit_rest_prefix (esize e) m A) as [n Hn]. exists n. cbn [firstn]. rewrite Hn. reflexivity.
+Qed.
+
+Lemma sp_to_apply_ok sp limit : SI sp -> exists l, sp_to_apply sp limit = Ok l /\
+  (l <> [] -> sp_processed sp < e_index (last_entry l) /\ e_index (last_entry l) <= sp_committed sp).
+Proof.
+  intros HS. unfold sp_to_apply, sp_has_to_apply. 
+  destruct (sp_first_not_applied sp <? sp_committed sp + 1) eqn:E.
+  2:{ exists []. split; [reflexivity|congruence]. }
+  pose proof (si_mp _ HS). pose proof (si_pc _ HS). pose proof (si_cl _ HS).
+  unfold sp_first_not_applied, sp_first in *. set (lo := N.max (sp_processed sp + 1) (sp_mi sp + 1)) in *.
+  unfold sp_entries, sp_first.
+  destruct (sp_committed sp + 1 <? lo) eqn:E0; [lia|].
+  assert (Hsn : sp_snap sp && is_nil (sp_ents sp) = false).
+  { destruct (sp_snap sp) eqn:Es; [|reflexivity]. destruct (sp_ents sp) eqn:Ee; [|reflexivity].
+    exfalso. unfold sp_last in *. rewrite Ee in *. rewrite nlen_nil in *. lia. }
+  rewrite Hsn. destruct (lo <? sp_mi sp + 1) eqn:E1; [lia|].
+  destruct (sp_last sp + 1 <? sp_committed sp + 1) eqn:E2; [lia|].
+  destruct (lo =? sp_committed sp + 1) eqn:E3; [lia|].
+  eexists; split; [reflexivity|]. intros Hne.
+  set (A := sp_slice sp lo (sp_committed sp + 1)) in *.
+  assert (HL : length A = N.to_nat (sp_committed sp + 1 - lo)) by (apply slice_len; lia).
+  assert (HA : A <> []) by (destruct A; cbn in HL; [lia|congruence]).
+  destruct (limit_size_prefix A limit HA) as [n Hn].
+  assert (HLog : log_ok lo (limit_size A limit)).
+  { rewrite Hn. apply log_ok_firstn. apply slice_log; auto. lia. }
+  rewrite (log_ok_last _ _ HLog Hne). pose proof (limit_size_len A limit).
+  assert (1 <= nlen (limit_size A limit)) by (destruct (limit_size A limit); [congruence|rewrite nlen_cons; lia]).
+  unfold nlen in *. lia.
+Qed.
+
+Lemma to_save_facts sp : SI sp ->
+  let S := sp_to_save sp in
+  log_ok (sp_saved sp + 1) S /\ nlen S = sp_last sp - sp_saved sp /\
+  (S <> [] -> e_index (last_entry S) = sp_last sp /\ e_term (last_entry S) = sp_term sp (sp_last sp)
+              /\ 1 <= e_term (last_entry S)).
+Proof.
+  intros HS S. pose proof (si_mp _ HS). pose proof (si_ps _ HS). pose proof (si_sl _ HS).
+  assert (HL : log_ok (sp_saved sp + 1) S).
+  { unfold S, sp_to_save. replace (sp_saved sp + 1) with (sp_mi sp + 1 + N.of_nat (N.to_nat (sp_saved sp - sp_mi sp))) by lia.
+    apply log_ok_skipn. apply (si_log _ HS). }
+  assert (HN : nlen S = sp_last sp - sp_saved sp).
+  { unfold S, sp_to_save. rewrite nlen_skipn. unfold sp_last in *. lia. }
+  split; [exact HL|]. split; [exact HN|]. intros Hne.
+  pose proof (log_ok_last _ _ HL Hne) as HI.
+  assert (1 <= nlen S) by (destruct S; [congruence|rewrite nlen_cons; lia]).
+  split; [lia|].
+  pose proof (last_entry_nth S Hne) as HLn. unfold S at 1, sp_to_save in HLn. rewrite nth_error_skipn in HLn.
+  assert (HG : sp_get sp (sp_last sp) = Some (last_entry S)).
+  { unfold sp_get. destruct (sp_last sp <=? sp_mi sp) eqn:E; [lia|]. rewrite <- HLn. f_equal. unfold nlen in *. lia. }
+  unfold sp_term. destruct (sp_last sp =? sp_mi sp) eqn:E; [lia|]. rewrite HG.
+  split; [reflexivity|]. apply (sp_get_some _ _ _ HS HG).
+Qed.
+
+Lemma step_get_update limit w sp more la : R w sp -> w_limit w = limit ->
+  wf_op sp (OGetUpdate more la) = true ->
+  exists w', step w (OGetUpdate more la) = Ok w' /\ R w' (sp_get_update sp more limit) /\ w_limit w' = limit.
+Proof.
+  intros HR Hlim Hwf. cbn [wf_op] in Hwf. apply andb_true_iff in Hwf as [Hidle Hla].
+  unfold idle in Hidle. destruct (sp_pend sp) eqn:Ep; [discriminate|]. clear Hidle.
+  pose proof (r_si _ _ HR) as HS. destruct (idle_cover _ HS Ep) as (Hpers & Hcov).
+  pose proof (si_mp _ HS). pose proof (si_pc _ HS). pose proof (si_cl _ HS). pose proof (si_ps _ HS). pose proof (si_sl _ HS).
+  destruct (sp_to_apply_ok sp limit HS) as (l & Hl & Hlp).
+  destruct (to_save_facts sp HS) as (SL & SN & SF).
+  remember (if more then l else []) as apl eqn:Eapl.
+  assert (Happ : (if more then el_to_apply (w_el w) (w_lr w) (w_st w) (w_limit w) else Ok []) = Ok apl).
+  { subst apl. destruct more; [|reflexivity]. rewrite Hlim, (v_to_apply _ _ _ HR). exact Hl. }
+  assert (Happ2 : (if more then match sp_to_apply sp limit with Ok l0 => l0 | _ => [] end else []) = apl).
+  { subst apl. destruct more; [|reflexivity]. rewrite Hl. reflexivity. }
+  assert (Hap : apl <> [] -> sp_processed sp < e_index (last_entry apl) /\ e_index (last_entry apl) <= sp_committed sp).
+  { subst apl. destruct more; [exact Hlp|congruence]. }
+  cbn [step]. unfold w_get_update, get_update. cbv zeta.
+  rewrite Happ, (v_to_save _ _ HR), (r_c _ _ HR). cbn [bind].
+  (* validateUpdate never fires *)
+  assert (HV : forall cm, (cm = 0 \/ cm = sp_committed sp) -> validate_update cm apl (sp_to_save sp) = None).
+  { intros cm Hcm. unfold validate_update.
+    destruct apl as [|a apl'] eqn:Ea; [cbn [is_nil negb]; rewrite !andb_false_r; reflexivity|]. rewrite <- Ea in *.
+    destruct Hap as (A1 & A2); [congruence|].
+    assert (Hn1 : is_nil apl = false) by (rewrite Ea; reflexivity). rewrite Hn1. cbn [negb].
+    destruct ((0 <? cm) && true && (cm <? e_index (last_entry apl))) eqn:C1; [lia|].
+    destruct (sp_to_save sp) as [|s0 S'] eqn:Es; [reflexivity|]. rewrite <- Es in *.
+    destruct SF as (F1 & _); [congruence|]. rewrite F1.
+    assert (Hn2 : is_nil (sp_to_save sp) = false) by (rewrite Es; reflexivity). rewrite Hn2. cbn [negb andb].
+    destruct (sp_last sp <? e_index (last_entry apl)) eqn:C2; [lia|]. reflexivity. }
+  rewrite HV by (destruct (sp_committed sp =? w_prev w); auto).
+  eexists; split; [reflexivity|]. split; [|exact Hlim].
+  assert (Hq : w_queue w = []) by (pose proof (r_q _ _ HR) as Q; rewrite Ep in Q; exact Q).
+  rewrite Hq. cbn [app].
+  unfold sp_get_update. cbv zeta. rewrite Happ2.
+  (* the snapshot handed out *)
+  assert (Hsnapv : match im_snap (el_im (w_el w)) with Some (0, _) => None | s => s end
+                   = if sp_snap sp then Some (sp_mi sp, sp_mt sp) else None).
+  { rewrite (r_snap _ _ HR). destruct (sp_snap sp) eqn:Es; [|reflexivity].
+    destruct (si_snap _ HS Es) as (_ & X). destruct (sp_mi sp); [lia|reflexivity]. }
+  rewrite Hsnapv.
+  constructor; cbn [w_el w_lr w_st w_queue sp_mi sp_mt sp_ents sp_committed sp_processed sp_saved sp_snap sp_pend sp_persisted].
+  - destruct HS. constructor; cbn [sp_mi sp_mt sp_ents sp_committed sp_processed sp_saved sp_snap sp_pend sp_persisted]; auto; discriminate.
+  - apply (r_c _ _ HR).
+  - apply (r_p _ _ HR).
+  - apply (r_s _ _ HR).
+  - apply (r_m2 _ _ HR).
+  - apply (r_w1 _ _ HR).
+  - apply (r_w2 _ _ HR).
+  - apply (r_w3 _ _ HR).
+  - apply (r_w4 _ _ HR).
+  - apply (r_snapm _ _ HR).
+  - apply (r_snap _ _ HR).
+  - apply (r_a1 _ _ HR).
+  - apply (r_a2 _ _ HR).
+  - pose proof (r_lr _ _ HR) as X. unfold rd_ok, cover, sp_last in *. rewrite Hpers in X.
+    cbn [sp_snap sp_persisted sp_saved sp_mi sp_mt sp_ents]. cbv beta iota in X. cbv beta iota. exact X.
+  - pose proof (r_st _ _ HR) as X. unfold cover, sp_get in *. rewrite Hpers in X.
+    cbn [sp_snap sp_persisted sp_saved sp_mi sp_mt sp_ents]. cbv beta iota in X. cbv beta iota. exact X.
+  - pose proof (r_stmax _ _ HR) as X. unfold cover in *. rewrite Hpers in X.
+    cbn [sp_snap sp_persisted sp_saved sp_mi sp_mt sp_ents]. cbv beta iota in X. cbv beta iota. exact X.
+  - pose proof (r_ss _ _ HR) as X. unfold rd_ok in *. rewrite Hpers in X.
+    cbn [sp_snap sp_persisted sp_saved sp_mi sp_mt sp_ents]. exact X.
+  - eexists; split; [reflexivity|].
+    unfold ud_rel. cbn [ud_save ud_uc ud_snap spd_save_last spd_processed spd_snap
+                        sp_mi sp_mt sp_ents sp_committed sp_processed sp_saved sp_snap].
+    split; [reflexivity|].
+    split.
+    { unfold update_commit. destruct (sp_to_save sp) as [|s0 S'] eqn:Es.
+      - rewrite nlen_nil in SN. destruct (sp_snap sp); cbn [uc_stable_to]; split; try reflexivity; unfold sp_last in *; cbn [sp_mi sp_ents]; lia.
+      - rewrite <- Es in *. destruct SF as (F1 & F2 & F3); [congruence|].
+        assert (sp_saved sp < sp_last sp) by (rewrite Es, nlen_cons in SN; lia).
+        destruct (sp_snap sp); cbn [uc_stable_to uc_stable_term]; (split; [reflexivity|]); (split; [reflexivity|]);
+          (split; [exact F1|]); (split; [|exact H4]); rewrite F2, F1; reflexivity. }
+    split.
+    { unfold update_commit. destruct (sp_to_save sp); destruct (sp_snap sp); destruct apl; reflexivity. }
+    split.
+    { destruct (sp_snap sp) eqn:Es.
+      - destruct (si_snap _ HS Es) as (X1 & X2). right. destruct apl as [|a apl'] eqn:Ea.
+        + lia.
+        + rewrite <- Ea in *. destruct Hap; [congruence|]. lia.
+      - destruct apl as [|a apl'] eqn:Ea; [left; reflexivity|]. right. rewrite <- Ea in *. destruct Hap; [congruence|]. lia. }
+    split.
+    { unfold update_commit. destruct (sp_to_save sp); destruct (sp_snap sp); destruct apl; cbn [uc_last_applied]; lia. }
+    split; [reflexivity|]. split.
+    { unfold update_commit. destruct (sp_to_save sp); destruct (sp_snap sp); destruct apl; reflexivity. }
+    reflexivity.
+Qed.
+
+(* ------------------------------------------------------------------ *)
 (* induction over operation sequences                                  *)
 
 (* the operations whose preservation of R is proved here; for the others
